@@ -67,6 +67,7 @@ Definition enc (o : vop) : titem :=
   | AltOn => TCsi [63] [[1049]] 104
   | AltOff => TCsi [63] [[1049]] 108
   | SGR cs => TCsi [] (flat_map enc_sgrc cs) 109
+  | Link ps uri => TOsc ([56; 59] ++ ps ++ [59] ++ uri)       (* 8 ; params ; URI *)
   end.
 
 (* the emulator on a vocabulary history: every sequence after the goroutine drained *)
